@@ -1,14 +1,12 @@
 """C15 - discovery retransmission envelope (E2 pysym / z3 Real) + own-message rule (E1 CrossHair, harness/C15.py)."""
 import random as _random
-import time as _time
 import types
 from fractions import Fraction
 
 from vf.main import Ob
 
 NT = 'sdc11073.wsdiscovery.networkingthread'
-F_ENV = [NT + '.NetworkingThread._repeated_enqueue_msg', NT + '._UdpRepeatParams', NT + '.UNICAST_REPEAT_PARAMS',
-         NT + '.MULTICAST_REPEAT_PARAMS']
+F_ENV = [NT + '.NetworkingThread._repeated_enqueue_msg', NT + '._UdpRepeatParams']   # + the two *_REPEAT_PARAMS constants of the module
 F_OWN = [NT + '.NetworkingThread.add_outbound_message', NT + '.NetworkingThread._repeated_enqueue_msg',
          NT + '.NetworkingThread._run_q_read']
 PARAM_FIELDS = ('max_initial_delay_ms', 'repeat', 'min_delay_ms', 'max_delay_ms', 'upper_delay_ms')
@@ -35,7 +33,7 @@ META = {
                    'add_outbound_message / one iteration of the real _run_q_read with symbolic message ids.',
     'outside': ['binary64 rounding of send times (encoding is over the reals)',
                 'the send loop (_run_send): 10 ms polling raster, actual socket transmission times',
-                'repeat > 6 in the generic obligation (unwinding bound, asserted)',
+                'repeat > 6 (quick) / > 12 (thorough) in the generic obligation (unwinding bound, asserted)',
                 'more than 200 other message ids seen between sending and the loop-back (deque maxlen=200)',
                 'XML parsing of the looped-back datagram (message_reader stubbed: returns the symbolic MessageID)'],
     'assumptions': STUBS,
@@ -84,7 +82,7 @@ def _mk_stubs():
             'self._logger.warning': skip, 'self._logger.debug': skip, 'self._logger.info': skip}
 
 
-def _encode(pset):
+def _encode(pset, unroll=UNROLL):
     """-> (be, sym, paths, pvals, passume): translate the current source for a parameter set name."""
     import z3
     from sdc11073.wsdiscovery import networkingthread as nt
@@ -93,14 +91,14 @@ def _encode(pset):
     if pset == 'generic':
         pv = {f: z3.Int('p_' + f) for f in PARAM_FIELDS}
         passume = [pv['max_initial_delay_ms'] >= 0, pv['min_delay_ms'] >= 0, pv['min_delay_ms'] < pv['max_delay_ms'],
-                   pv['max_delay_ms'] <= pv['upper_delay_ms'], pv['repeat'] >= 0, pv['repeat'] <= UNROLL,
+                   pv['max_delay_ms'] <= pv['upper_delay_ms'], pv['repeat'] >= 0, pv['repeat'] <= unroll,
                    pv['upper_delay_ms'] <= 100000, pv['max_initial_delay_ms'] <= 100000]
     else:
         const = {'unicast': nt.UNICAST_REPEAT_PARAMS, 'multicast': nt.MULTICAST_REPEAT_PARAMS}[pset]
         pv = {f: getattr(const, f) for f in PARAM_FIELDS}
         passume = []
     fields = {'delay_params.' + f: v for f, v in pv.items()}
-    sym = pysym.Sym(nt.NetworkingThread._repeated_enqueue_msg, be, stubs=_mk_stubs(), fields=fields, unroll=UNROLL)
+    sym = pysym.Sym(nt.NetworkingThread._repeated_enqueue_msg, be, stubs=_mk_stubs(), fields=fields, unroll=unroll)
     paths = sym.run({'self': pysym.Opaque('self'), 'msg': pysym.Opaque('msg'), 'delay_params': pysym.Opaque('delay_params')})
     return be, sym, paths, pv, passume
 
@@ -194,7 +192,7 @@ def _mk_params(d):
     return nt._UdpRepeatParams(*[int(d[f]) for f in PARAM_FIELDS])
 
 
-def _validate(be, sym, paths, pv, pset, seed):
+def _validate(be, sym, paths, pv, pset, seed, unroll=UNROLL):
     """Translator validation: the encoding, evaluated on concrete draws (substitution, no search), must equal the real function
     run with random/time patched to the same draws. Returns None or an error text."""
     from sdc11073.wsdiscovery import networkingthread as nt
@@ -208,7 +206,7 @@ def _validate(be, sym, paths, pv, pset, seed):
         if pset == 'generic':
             mn = rng.randint(0, 300)
             mx = mn + rng.randint(1, 300)
-            d = {'max_initial_delay_ms': rng.randint(0, 800), 'repeat': rng.randint(0, UNROLL), 'min_delay_ms': mn,
+            d = {'max_initial_delay_ms': rng.randint(0, 800), 'repeat': rng.randint(0, unroll), 'min_delay_ms': mn,
                  'max_delay_ms': mx, 'upper_delay_ms': mx + rng.choice([0, 1, 50, 400, 2000])}
             params = _mk_params(d)
         else:
@@ -235,12 +233,13 @@ def _validate(be, sym, paths, pv, pset, seed):
 def ob_envelope(ctx):
     from vf import pysym
     pset = ctx.params['set']
+    unroll = int(ctx.params.get('unroll', UNROLL))
     try:
-        be, sym, paths, pv, passume = _encode(pset)
+        be, sym, paths, pv, passume = _encode(pset, unroll)
     except pysym.Unsupported as ex:
         return {'verdict': 'inconclusive', 'reason': f'translation failed: {ex}', 'engine': 'pysym(z3 Real)'}
     import z3
-    err = _validate(be, sym, paths, pv, pset, ctx.seed or 0)
+    err = _validate(be, sym, paths, pv, pset, ctx.seed or 0, unroll)
     if err:
         return {'verdict': 'error', 'reason': err, 'engine': 'pysym(z3 Real)'}
     detail = [f'{len(paths)} path(s)']
@@ -248,7 +247,7 @@ def ob_envelope(ctx):
     for conds, assumes in sym.unwind:
         r, _ = be.check(passume + conds + assumes)
         if r != 'unsat':
-            return {'verdict': 'inconclusive', 'reason': f'unwinding bound {UNROLL} not sufficient ({r})', 'engine': 'pysym(z3 Real)',
+            return {'verdict': 'inconclusive', 'reason': f'unwinding bound {unroll} not sufficient ({r})', 'engine': 'pysym(z3 Real)',
                     'queries': be.queries}
     reach, sample = False, None
     excluded = [lab for lab in LABELS if lab in ctx.exclude]
@@ -288,7 +287,7 @@ def ob_envelope(ctx):
                         'engine': 'pysym(z3 Real)', 'reach': True}
     res = {'verdict': 'inconclusive' if inconclusive or not reach else 'confirmed', 'reach': reach, 'queries': be.queries,
            'solver_s': round(be.solver_s, 3), 'engine': 'pysym(z3 Real)', 'sample': sample,
-           'detail': '; '.join(detail + [f'validated against the real function on 40 concrete draws',
+           'detail': '; '.join(detail + ['validated against the real function on 40 concrete draws',
                                          f'unwinding paths refuted: {len(sym.unwind)}'])}
     if inconclusive:
         res['reason'] = '; '.join(inconclusive)
@@ -327,12 +326,13 @@ def replay(ctx):
 
 def obligations(tier):
     t = 60 if tier == 'quick' else 300
+    unroll = UNROLL if tier == 'quick' else 12
     obs = []
     for pset, what in (('unicast', 'UNICAST_REPEAT_PARAMS as read from the module'),
                        ('multicast', 'MULTICAST_REPEAT_PARAMS as read from the module'),
                        ('generic', 'symbolic parameters: 0 <= min < max <= upper <= 100000, 0 <= max_initial <= 100000, '
-                                   f'0 <= repeat <= {UNROLL} (unwinding assertion)')):
-        obs.append(Ob(f'C15.envelope.{pset}', 'checks.C15', 'ob_envelope', kind='py', params={'set': pset}, timeout=t,
+                                   f'0 <= repeat <= {unroll} (unwinding assertion)')):
+        obs.append(Ob(f'C15.envelope.{pset}', 'checks.C15', 'ob_envelope', kind='py', params={'set': pset, 'unroll': unroll}, timeout=t,
                       functions=F_ENV, stubs=STUBS, bounds=what + '; every outcome of both random draws; time.time() in [0, 4e9]',
                       claim='1 + repeat puts; 0 <= send0 - now <= max_initial/1000; first gap in [min/1000, max/1000]; every '
                             'further gap == min(2 * previous gap, upper/1000)'))
@@ -355,7 +355,7 @@ MANIFEST_ENTRY = {
     'technique': 'AST->SMT translation (vf/pysym.py, z3 Int/Real) of NetworkingThread._repeated_enqueue_msg read from the current '
                  'source, random draws / clock / parameters as solver variables; CrossHair on add_outbound_message and one '
                  'iteration of _run_q_read for the own-message rule',
-    'text': 'For the unicast and multicast parameter sets and for symbolic parameters (repeat <= 6, unwinding asserted) the '
+    'text': 'For the unicast and multicast parameter sets and for symbolic parameters (repeat <= 6 quick / 12 thorough, unwinding asserted) the '
             'negation of each envelope condition is checked for satisfiability per path; unsat = holds for every outcome of the '
             'random draws. Models are replayed on the real function with random/time patched. The translation is validated on '
             'every run against the real function on 40 concrete draws.',
